@@ -66,7 +66,7 @@ def cases(ctx):
 
     for j in range(60 if ctx.quick else 800):
         r = ctx.rng("C04g3", j)
-        c = gen.rand_circuit(r, n_in=r.randint(1, 4), n_gates=r.randint(2, 9), max_fanin=4, consts=0.4, out_is_input=0.35)
+        c = gen.rand_circuit(r, n_in=r.randint(1, 4), n_gates=r.randint(2, 9), max_fanin=4, consts=0.4, out_is_input=0.35, loaded_in_out=0.15)
         p = proj(c)
         kind = r.choice(["self", "copy", "mut", "mut", "lf"])
         if kind == "self":
